@@ -58,3 +58,18 @@ impl VSplitCollect for str {
     fn vsplit_collect<'a>(&'a self, sep: char) -> (r: Vec<&'a str>) { unimplemented!() }
     open spec fn vsc_view(&self) -> Seq<char> { self@ }
 }
+
+/// `s.trim_start_matches(p)`: the prefix is stripped repeatedly (not used by the code as it is)
+pub open spec fn trim_start_spec(s: Seq<char>, p: Seq<char>) -> Seq<char>
+    decreases s.len()
+{
+    if p.len() > 0 && is_prefix_chars(p, s) { trim_start_spec(s.subrange(p.len() as int, s.len() as int), p) } else { s }
+}
+#[verifier::allow(undeclared_external_trait)]
+pub assume_specification<'a, P: core::str::pattern::Pattern>[ str::trim_start_matches ](s: &'a str, pat: P) -> (r: &'a str)
+    ensures r@ == trim_start_spec(s@, pat_seq::<P>(pat));
+/// R41 SHIM for `[a, b].concat()` on two string slices
+#[verifier::external_body]
+pub fn vconcat2(a: &str, b: &str) -> (r: String)
+    ensures r@ == a@ + b@
+{ [a, b].concat() }
